@@ -46,6 +46,10 @@ impl OutputFormat for TundraDraw {
         if fonts.len() > 1 {
             return Err(anyhow::anyhow!("Only single font files are supported by this format."));
         }
+        // the width is kept in the SAUCE record only, and a reader does not trust a SAUCE width above 1000 (see Buffer::set_sauce)
+        if buf.get_width() > 1000 {
+            return Err(anyhow::anyhow!("Tundra file width limit exceeded (maximum of 1000): {}", buf.get_width()));
+        }
 
         for y in 0..buf.get_height() {
             for x in 0..buf.get_width() {
